@@ -683,6 +683,22 @@ def run(tier, seed):
         R.known.append(f) if f["id"] not in [k.get("id") for k in R.known] else None
     rnd = random.Random(seed)
     L = _lib()
+    # two sequencers alive at once: listeners belong to the sequencer they were attached to
+    from mingus.midi.sequencer import Sequencer as SeqCls
+    if SeqCls is not None:
+        R.case("two sequencers", "listeners")
+        sa, sb = SeqCls(), SeqCls()
+        marker = object()
+        sa.attach(marker)
+        if getattr(sb, "listeners", None) is getattr(sa, "listeners", None) or marker in getattr(sb, "listeners", []):
+            R.fail("Sequencer.attach", "every-listener-receives-each-notification",
+                   "a listener attached to one sequencer is also a listener of another one", "two sequencers")
+        sc = SeqCls()
+        if marker in getattr(sc, "listeners", []):
+            R.fail("Sequencer.attach", "every-listener-receives-each-notification",
+                   "a NEW sequencer starts with the listeners of an earlier one", "new sequencer")
+        sa.detach(marker)
+
     thorough = tier != "quick"
 
     def rig(twice=False):
